@@ -204,6 +204,7 @@ def run_check(prop, tier, seed, nruns=None, quiet=False):
     samples = []
     violations = []  # (scenario, result)
     known_tally = collections.Counter()
+    known_examples = {}
     harness = []
     walls = []
     stop = threading.Event()
@@ -230,6 +231,8 @@ def run_check(prop, tier, seed, nruns=None, quiet=False):
             f = match_finding(findings, prop, r["vclass"], r.get("sig") or {})
             if f:
                 known_tally[f["id"]] += 1
+                if f["id"] not in known_examples and a.get("scenario") is not None:
+                    known_examples[f["id"]] = (a["scenario"], r)
             else:
                 violations.append((a.get("scenario"), r))
                 if len(violations) >= max_unknown:
@@ -299,6 +302,10 @@ def run_check(prop, tier, seed, nruns=None, quiet=False):
                 reported.append((path, sres))
             else:
                 harness.append({"error": f"minimised replay did not reproduce: {path}", "trace": json.dumps(again, default=str)[:2000]})
+        if os.environ.get("VERIF_SAVE_KNOWN"):
+            for fid, (scenario, result) in known_examples.items():
+                small, sres, _ = shrink(pool, eng, engine_name, prop, scenario, result, params)
+                print("known example:", write_replay(prop, engine_name, small, sres, params, "known-" + fid))
     wall = time.time() - t0
 
     for line in known_lines:
